@@ -360,6 +360,12 @@ class SchemaGen:
 
     def alias(self, parent: Optional[MsgDef]) -> AliasDef:
         r = self.rng
+        if r.random() < 0.2:
+            # an array whose WIRE size is 8/16/32/64 bits but whose memory is wider (C batch predicate)
+            w = r.choice([8, 16, 32, 64])
+            n = r.choice([d for d in (1, 2, 4, 8, 16) if d < w and w // d <= 64])
+            e = TBool() if n == 1 and r.random() < 0.5 else (TUint(n) if r.random() < 0.6 else TInt(n))
+            return AliasDef(self.fresh("Al"), TArray(e, w // n, False), parent)
         if r.random() < 0.4:
             e = self.elem_type(0, parent)
             # alias element must not itself be an alias-to-array inside array? allowed by the
@@ -390,7 +396,11 @@ class SchemaGen:
             m.fields.pop()
         return m
 
+    corpus_queue: List[Schema] = []
+
     def schema(self, ntop: Optional[int] = None) -> Schema:
+        if SchemaGen.corpus_queue:
+            return SchemaGen.corpus_queue.pop(0)
         r = self.rng
         self.defs = []
         self.all_named = []
